@@ -353,27 +353,51 @@ class SchedSuite(Suite):
     def gen_cases(self, rng, tier):
         n = 400 if tier == "quick" else 12000
         cases = []
+        ladder = [8, 16, 24, 40, 56, 64, 120, 128, 200, 300, 500]
         for _ in range(n):
-            nt = rng.choice([2, 2, 2, 3])
+            nt = rng.choice([2, 2, 2, 3, 3, 4])
             lines = ["case 0 sched %d" % nt]
-            nsteps = rng.randint(6, 40)
-            sizes = rng.sample([8, 16, 24, 56, 64, 120, 128, 300], rng.randint(2, 4))
+            nsteps = rng.randint(6, 45)
+            used = []
             begun = 0
+            pending = [0] * nt          # guess: hooked operations the thread still has to perform
+            owner = {}                  # frame -> thread that allocates it
             maybe_live = []
+            grow_p = rng.choice([0.2, 0.5, 0.8])
             for _ in range(nsteps):
                 t = rng.randrange(nt)
                 r = rng.random()
-                if r < 0.45:
-                    lines.append("%d alloc %d" % (t, rng.choice(sizes)))
-                    maybe_live.append(begun)
-                    begun += 1
-                elif r < 0.8 and maybe_live:
-                    f = maybe_live[rng.randrange(len(maybe_live))]
-                    if rng.random() < 0.7:
-                        maybe_live.remove(f)
+                if pending[t] > 0 and r < 0.85:
+                    lines.append("%d go" % t)
+                    pending[t] -= 1
+                    continue
+                cand = [f for f in maybe_live if pending[owner[f]] == 0 or rng.random() < 0.15]
+                if r < 0.5 or not cand:
+                    bigger = [x for x in ladder if not used or x > max(used)]
+                    if bigger and (not used or rng.random() < grow_p):
+                        sz = bigger[0] if rng.random() < 0.7 else rng.choice(bigger)
+                    else:
+                        sz = rng.choice(used)
+                    grows = not used or sz > max(used)
+                    used.append(sz)
+                    lines.append("%d alloc %d" % (t, sz))
+                    if pending[t] == 0:
+                        owner[begun] = t
+                        maybe_live.append(begun)
+                        begun += 1
+                        pending[t] = 2 if grows and len(used) > 1 else 1
+                    else:
+                        pending[t] -= 1
+                elif r < 0.93:
+                    f = rng.choice(cand)
                     lines.append("%d free %d" % (t, f))
+                    if pending[t] == 0:
+                        maybe_live.remove(f)
+                    else:
+                        pending[t] -= 1
                 else:
                     lines.append("%d go" % t)
+                    pending[t] = max(0, pending[t] - 1)
             lines.append("end")
             cases.append({"id": 0, "lines": lines})
         return cases
@@ -391,15 +415,29 @@ class SchedSuite(Suite):
         return mx >= 2 or paused_del
 
     def stats(self, cases, outs):
-        st = {"threads": {}, "steps": 0, "growth_windows": 0, "private_blocks": 0, "shared_frames": 0, "skips": 0}
+        st = {"threads": {}, "steps": 0, "growth_windows": 0, "steps_of_other_threads_inside_a_growth_window": 0,
+              "frames": 0, "max_live_frames": 0, "skips": 0}
         for c in cases:
             nt = c["lines"][0].split()[3]
             st["threads"][nt] = st["threads"].get(nt, 0) + 1
             st["steps"] += len(c["lines"]) - 2
-            shared_blocks = set()
+            window = None
+            live = 0
             for l in outs.get(str(c["id"]), []):
+                h = l.split()
                 if "paused@new ; del" in l:
                     st["growth_windows"] += 1
+                    window = h[0]
+                elif window is not None and h and h[0] != window and h[0].startswith("t") and "skip" not in h:
+                    st["steps_of_other_threads_inside_a_growth_window"] += 1
+                elif window is not None and h and h[0] == window:
+                    window = None
+                if " done f" in l:
+                    st["frames"] += 1
+                    live += 1
+                    st["max_live_frames"] = max(st["max_live_frames"], live)
+                elif " freed f" in l:
+                    live -= 1
                 if l.endswith(" skip") or l == "skip":
                     st["skips"] += 1
         return st
